@@ -329,7 +329,7 @@ def run_io(prop, tier, seed):
         # the uninitialised-read half of the claim: the truncation cases again under valgrind memcheck (uninstrumented -O1 build)
         plain = V.build_engine(IO, "plain")
         mcases = 48 if tier == "quick" else 1400
-        r2 = V.run_sharded(prop, plain, ["--mode", "truncate-only"], mcases, seed, tier, V.NCPU, 1200 if tier == "quick" else 10800, replay_dir(prop),
+        r2 = V.run_sharded(prop, plain, ["--mode", "truncate-only", "--x-nobig", "1"], mcases, seed, tier, V.NCPU, 1200 if tier == "quick" else 10800, replay_dir(prop),
                            prefix=["valgrind", "--quiet", "--error-exitcode=66", "--exit-on-first-error=yes", "--track-origins=yes", "--num-callers=25"],
                            tag="io-memcheck")
         for v in r2.viols:
